@@ -342,15 +342,24 @@ class Ctx:
 # --------------------------------------------------------------------------------------
 
 def load_known_findings() -> dict:
-    path = os.path.join(VERIF, 'KNOWN_FINDINGS.json')
+    """findings/Cxx.json fragments are the source; KNOWN_FINDINGS.json is their committed concatenation
+    (tools/mkmanifest.py). Never written at check time."""
+    import glob
     out: dict = {}
-    if not os.path.exists(path):
-        return out
-    doc = json.load(open(path))
-    for f in doc.get('findings', []):
-        out.setdefault(f['property'], {'findings': [], 'fixed': []})['findings'].append(f)
-    for f in doc.get('fixed', []):
-        out.setdefault(f['property'], {'findings': [], 'fixed': []})['fixed'].append(f)
+    seen = set()
+    paths = sorted(glob.glob(os.path.join(VERIF, 'findings', '*.json')))
+    kf = os.path.join(VERIF, 'KNOWN_FINDINGS.json')
+    if os.path.exists(kf):
+        paths.append(kf)
+    for path in paths:
+        doc = json.load(open(path))
+        for sect in ('findings', 'fixed'):
+            for f in doc.get(sect, []):
+                key = (sect, f['property'], f.get('id') or f.get('commit'), f.get('what'))
+                if key in seen:
+                    continue
+                seen.add(key)
+                out.setdefault(f['property'], {'findings': [], 'fixed': []})[sect].append(f)
     return out
 
 
